@@ -6,6 +6,7 @@ datatype IS alpha-equivalence.
 """
 from spec.api import implies, iff, ite, lemma, requires, ensures, decreases, native, uninterpreted
 from kernel.term import Term, SVar, Var, Const, Comb, Abs, Bound
+from kernel.type import Type, STVar, TVar, TConst
 
 
 # ---------------------------------------------------------------- size / measures
@@ -160,3 +161,103 @@ def lift_closed(t: 'Term', k: int, n: int):
     elif t.is_abs():
         lift_closed(t.body, k + 1, n)
     ensures(implies(not loose(t, k), lift(t, k, n) == t))
+
+
+# ---------------------------------------------------------------- types of terms
+def bool_ty() -> 'Type':
+    return TConst('bool')
+
+
+def fun_ty(a: 'Type', b: 'Type') -> 'Type':
+    return TConst('fun', a, b)
+
+
+def is_fun_ty(T: 'Type') -> bool:
+    return T.is_tconst() and T.name == "fun" and len(T.args) >= 2
+
+
+def ty_of(t: 'Term', bd: 'seq[Type]') -> 'Type':
+    """Type of t in the context bd of bound-variable types (total; arbitrary on ill-typed terms)."""
+    if t.is_comb():
+        return ty_of(t.fun, bd).args[1]
+    elif t.is_abs():
+        return fun_ty(t.var_T, ty_of(t.body, [t.var_T] + bd))
+    elif t.is_bound():
+        return bd[t.n]
+    else:
+        return t.T
+
+
+def wt(t: 'Term', bd: 'seq[Type]') -> bool:
+    """t is well-typed in context bd: every application has a function of type a => b applied to an
+    argument of type a, every bound variable is in range 0 <= n < len(bd)."""
+    if t.is_comb():
+        return wt(t.fun, bd) and wt(t.arg, bd) and is_fun_ty(ty_of(t.fun, bd)) and \
+            ty_of(t.fun, bd).args[0] == ty_of(t.arg, bd)
+    elif t.is_abs():
+        return wt(t.body, [t.var_T] + bd)
+    elif t.is_bound():
+        return 0 <= t.n and t.n < len(bd)
+    else:
+        return True
+
+
+def weak_wt(t: 'Term', bd: 'seq[Type]') -> bool:
+    """What Term.get_type checks (argument types are NOT checked): heads are functions, bounds in range."""
+    if t.is_comb():
+        return weak_wt(t.fun, bd) and ty_of(t.fun, bd).is_tconst() and ty_of(t.fun, bd).name == 'fun' and \
+            len(ty_of(t.fun, bd).args) >= 2
+    elif t.is_abs():
+        return weak_wt(t.body, [t.var_T] + bd)
+    elif t.is_bound():
+        return -len(bd) <= t.n and t.n < len(bd)
+    else:
+        return True
+
+
+# ---------------------------------------------------------------- argument lists
+def rargs_of(t: 'Term') -> 'seq[Term]':
+    """Arguments of the spine of t, last argument first."""
+    if t.is_comb():
+        return [t.arg] + rargs_of(t.fun)
+    else:
+        return []
+
+
+def rev_Term(s: 'seq[Term]') -> 'seq[Term]':
+    if len(s) == 0:
+        return []
+    else:
+        return rev_Term(s[1:]) + [s[0]]
+
+
+@lemma
+def rev_rargs(t: 'Term'):
+    decreases(t)
+    if t.is_comb():
+        rev_rargs(t.fun)
+    ensures(rev_Term(rargs_of(t)) == args_of(t))
+
+
+@lemma
+def len_args(t: 'Term'):
+    decreases(t)
+    if t.is_comb():
+        len_args(t.fun)
+    ensures(len(args_of(t)) == nargs_of(t) and nargs_of(t) >= 0)
+
+
+@lemma
+def args_small(t: 'Term'):
+    """Explicit argument lists for spines of length 1, 2, 3."""
+    if t.is_comb():
+        len_args(t.fun)
+        if t.fun.is_comb():
+            len_args(t.fun.fun)
+            if t.fun.fun.is_comb():
+                len_args(t.fun.fun.fun)
+    ensures(implies(nargs_of(t) == 1, args_of(t) == [t.arg] and not t.fun.is_comb()))
+    ensures(implies(nargs_of(t) == 2, args_of(t) == [t.fun.arg, t.arg] and t.fun.is_comb() and
+                    not t.fun.fun.is_comb()))
+    ensures(implies(nargs_of(t) == 3, args_of(t) == [t.fun.fun.arg, t.fun.arg, t.arg] and t.fun.is_comb() and
+                    t.fun.fun.is_comb() and not t.fun.fun.fun.is_comb()))
